@@ -136,8 +136,16 @@ def run_oracle(case):
         im = msm.Impl(case)
     except Exception as e:
         return [('harness', repr(e))]
-    for op in case['ops']:
+    for jj, op in enumerate(case['ops']):
+        before_iv = [(v, v.initial_value) for v in im.model.variables()] if op[0] in ('addeq', 'rmeq') else None
         im.step(op)
+        if before_iv is not None and len(bad) < 3:
+            # adding or removing an EQUATION never touches the initial value a variable was given (a state that is clamped by
+            # x = number and released again is the same state afterwards)
+            chg = [(v.name, iv, v.initial_value) for v, iv in before_iv if v.initial_value != iv]
+            if chg:
+                bad.append(('operation %r (an equation edit) changed the initial value of %s from %r to %r'
+                            % (op, chg[0][0], chg[0][1], chg[0][2]), {'op_index': jj}))
     m = im.model
     M = im.M
     state = final_state(im)
